@@ -245,6 +245,9 @@ class PrecipitateModel (PrecipitateBase):
 
         #Store equilibrium compositions of the current table so they can be reused until the table is rebuilt
         self._xEqLookup = (xEqAlpha, xEqBeta)
+        #The table now corresponds to T, so restart the accumulated temperature change
+        #   (the table is also recreated when the size classes are re-meshed)
+        self.dTemp = 0
         return xEqAlpha, xEqBeta
     
     def _setupAspectRatio(self):
